@@ -283,7 +283,7 @@ def run(tier, replay=None):
         import json
         print(json.dumps(json.load(open(replay)), indent=1)[:3000])
         return 0
-    proof = common.prove(report, "C16", ["protoconsts", "varconsts", "jis8", "pysecsihdr", "reasm"], extra_targets=["Run/C16Run.vo"])
+    proof = common.prove(report, "C16", ["protoconsts", "varconsts", "jis8", "pysecsihdr", "reasm", "checksum"], extra_targets=["Run/C16Run.vo"])
     ok, log = common.coq_make(["Run/C16Run.vo"])
     if not ok:
         report.violation({"kind": "broken-obligation", "obligation": "model Run/C16Run.vo does not build against the regenerated constants",
